@@ -321,7 +321,7 @@ func (c *fctx) expr(e ast.Expr, en *env, k func(string) string) string {
 		}
 		v := c.structVar(x.X, en)
 		t.exprType(x)
-		return k(fmt.Sprintf("(%s_%s %s)", v.ty.st.name, x.Sel.Name, v.name))
+		return k(fmt.Sprintf("(%s_%s %s)", v.ty.st.name, v.ty.st.coqField(x.Sel.Name), v.name)) // [stable]
 	case *ast.UnaryExpr:
 		g := t.exprType(x)
 		switch x.Op {
@@ -789,7 +789,7 @@ func (c *fctx) store(lhs ast.Expr, val string, en *env, k func() string) string 
 			t.fail(x, "assignment to selector %s", x.Sel.Name)
 		}
 		v := c.structVar(x.X, en)
-		return fmt.Sprintf("let %s := set_%s_%s %s %s in\n%s", v.name, v.ty.st.name, x.Sel.Name, v.name, val, k())
+		return fmt.Sprintf("let %s := set_%s_%s %s %s in\n%s", v.name, v.ty.st.name, v.ty.st.coqField(x.Sel.Name), v.name, val, k()) // [stable]
 	}
 	t.fail(lhs, "assignment to %s", nodeDesc(lhs))
 	return ""
